@@ -41,6 +41,8 @@ func main() {
 		raceMain(os.Args[2:])
 	case "cost":
 		costMain(os.Args[2:])
+	case "calibrate-xss":
+		calibrateXSSMain(os.Args[2:])
 	case "emit-grammar":
 		emitGrammarMain(os.Args[2:])
 	default:
